@@ -21,6 +21,8 @@
  *   attachto H V r|w           a further VSattach of the vdata of slot V, kept in handle slot H (8..15) -> ok | fail
  *   reopen                     Vend + Hclose + Hopen + Vstart                  -> ok | fail
  *   inquire V                  VSinquire                                       -> ok nrec il eltsize nfields names | fail
+ *   setname V s / setclass V s VSsetname / VSsetclass ('-' = empty string)             -> ok | fail
+ *   getname V / getclass V     VSgetname / VSgetclass                          -> ok s | fail
  *   elts V                     VSelts                                          -> ok n | fail
  *   sizeof V a,b               VSsizeof                                        -> ok n | fail
  *   field V idx                VFfieldtype/isize/esize/order/name              -> ok t is es ord name | fail
@@ -421,6 +423,30 @@ static void run_history(const char *dir, char **lines, long *lnos, long nlines)
             if (r == FAIL) printf("%ld fail\n", ln);
             else printf("%ld ok %d %d %d %d %s\n", ln, (int)ne, (int)il, (int)es, (int)VFnfields(vid[v]), flds[0] ? flds : "-");
             free(flds);
+        }
+        else if (!strcmp(op, "setname") || !strcmp(op, "setclass")) {
+            sscanf(line, "%*s %ld %s", &v, s1);
+            const char *val = strcmp(s1, "-") ? s1 : "";
+            int isname = op[3] == 'n';
+            VDATA *vs = tracing ? vs_of(vid[v]) : NULL;
+            if (vs && vs->access == 'w') {
+                const char *cur = isname ? vs->vsname : vs->vsclass;
+                printf("MC %ld %s %s %s %d\n", ln, isname ? "setname" : "setclass", cur[0] ? cur : "-", s1, vs->new_h_sz ? 1 : 0);
+            }
+            else vs = NULL;
+            int32 r = isname ? VSsetname(vid[v], val) : VSsetclass(vid[v], val);
+            if (vs) {
+                const char *now = isname ? vs->vsname : vs->vsclass;
+                printf("MR %ld %d %s %d\n", ln, (int)r, now[0] ? now : "-", vs->new_h_sz ? 1 : 0);
+            }
+            printf(r == FAIL ? "%ld fail\n" : "%ld ok\n", ln);
+        }
+        else if (!strcmp(op, "getname") || !strcmp(op, "getclass")) {
+            sscanf(line, "%*s %ld", &v);
+            char nm[4 * VSNAMELENMAX + 8];
+            nm[0] = 0;
+            int32 r = op[3] == 'n' ? VSgetname(vid[v], nm) : VSgetclass(vid[v], nm);
+            if (r == FAIL) printf("%ld fail\n", ln); else printf("%ld ok %s\n", ln, nm[0] ? nm : "-");
         }
         else if (!strcmp(op, "elts")) {
             sscanf(line, "%*s %ld", &v);
